@@ -81,12 +81,14 @@ fn gen_stream(stream: &str, n: u64, seed: u64) {
             let chunk = 20000i64;
             if n >= 1 { let mut z = -719162i64; while z < 2932897 { writeln!(w, "tmrange d {} {}", z, chunk.min(2932897 - z)).unwrap(); z += chunk; }
                         let mut ms = 0i64; while ms < 86400000 { writeln!(w, "tmrange t {} {}", ms, (100000i64).min(86400000 - ms)).unwrap(); ms += 100000; }
-                        for i in 0..200 { writeln!(w, "tmrange c {} 5000", seed.wrapping_mul(1000).wrapping_add(i)).unwrap(); } }
+                        for i in 0..200 { writeln!(w, "tmrange c {} 5000", seed.wrapping_mul(1000).wrapping_add(i)).unwrap(); }
+                        writeln!(w, "tmrange r 0 20000").unwrap(); }
             else { for _ in 0..40 { writeln!(w, "tmrange d {} 2000", (r.below(3652059 - 2000) as i64) - 719162).unwrap(); }
                    for z in [-719162i64, 2932896 - 1999, -1000, 10957 - 1000, 11016 - 500] { writeln!(w, "tmrange d {} 2000", z).unwrap(); }   // year 1, year 9999, 1970, 2000 leap day
                    for _ in 0..40 { writeln!(w, "tmrange t {} 5000", r.below(86400000 - 5000)).unwrap(); }
                    for ms in [0i64, 86400000 - 5000, 3600000 - 2500, 43200000 - 2500] { writeln!(w, "tmrange t {} 5000", ms).unwrap(); }
-                   for i in 0..20 { writeln!(w, "tmrange c {} 2000", seed.wrapping_mul(1000).wrapping_add(i)).unwrap(); } } }
+                   for i in 0..20 { writeln!(w, "tmrange c {} 2000", seed.wrapping_mul(1000).wrapping_add(i)).unwrap(); }
+                   writeln!(w, "tmrange r 0 2000").unwrap(); } }
         "mathlaw" => {
             // all code points (chunks), integers around 0 / 2^53 / random, doubles from the boundary pool + random bits
             let mut cp = 0u32; while cp < 0x110000 { writeln!(w, "mathlaw cp {} {}", cp, 4096.min(0x110000 - cp)).unwrap(); cp += 4096; }
